@@ -1,0 +1,14 @@
+//go:build verif
+
+// Machine-checked contracts for package originstore (comment-only; read by /verif/govc).
+
+package originstore
+
+// originCount(d): the number of origins of blob d (uninterpreted; bounds the handout size).
+//@ specfunc originCount(d core.Digest) int
+
+// Interface contract of originstore.Store.GetOrigins (assumed).
+//@ func Store.GetOrigins(st, d)
+//@   trusted
+//@   ensures bounded: 0 <= len(result0) && len(result0) <= originCount(d) && len(result0) <= cap(result0) && 0 <= originCount(d)
+//@   ensures elems: forall j int :: 0 <= j && j < len(result0) ==> result0[j] != nil && allocated(result0[j])
